@@ -215,9 +215,28 @@ func RuleTransport(r *Report, p *Program, rules aspectSet) {
 					if locks[0] > openIdx {
 						t3 = "lock acquired after the socket is opened"
 					}
-					if len(unlockDefers) == 0 || unlockDefers[0] < locks[0] || unlockDefers[0] > openIdx {
-						t3 = "no deferred unlock registered between the lock and the socket open"
+					// released when the call returns: an unlock runs after every socket operation of the path (as a
+					// deferred call, inside a deferred release function, or explicitly), and none runs before them
+					lastIO := locks[0]
+					for i, e := range pa.Events {
+						if e.Kind == "call" && !e.Deferred && (isOpenCall(e.Name) || isReadCall(e) || isWriteCall(e)) && i > lastIO {
+							lastIO = i
+						}
 					}
+					released := false
+					for i, e := range pa.Events {
+						if e.Kind == "call" && strings.HasSuffix(e.Name, "sync.Mutex).Unlock") && len(e.Args) > 0 && isGlobalRef(e.Args[0]) {
+							if i > lastIO {
+								released = true
+							} else if i > locks[0] {
+								t3 = "the fixed-port lock is released at " + p.Pos(e.Pos) + " before the socket operations of the call are over"
+							}
+						}
+					}
+					if !released && pa.Outcome == "return" {
+						t3 = "the fixed-port lock is not released on the path [" + cut(pa.State.Describe(), 160) + "]"
+					}
+					_ = unlockDefers
 				} else {
 					unlockedPaths++
 					if portKnown && !portZero {
@@ -258,6 +277,13 @@ func RuleTransport(r *Report, p *Program, rules aspectSet) {
 			for i, e := range pa.Events {
 				if i > openIdx && (e.Kind == "call" || e.Kind == "defer") && strings.HasSuffix(e.Name, ".Close") && mentions(e, conn) {
 					closed = true
+				}
+				// a registered release function that closes the socket (its body is walked when the path returns; on a
+				// loop-bounded path the registration is what shows that the close is pending)
+				if i > openIdx && e.Kind == "defer" && e.Result != nil && e.Result.Op == "closure" && e.Result.Fn != nil {
+					if reachesCall(e.Result.Fn, func(n string) bool { return strings.HasSuffix(n, ".Close") }, map[*ssa.Function]bool{}) && closureCaptures(e.Result, conn) {
+						closed = true
+					}
 				}
 			}
 			if sf.Listen {
@@ -1109,25 +1135,7 @@ func RuleShareIn(r *Report, p *Program, rules aspectSet, keep func(parent string
 								}
 							}
 						}
-						closes := false
-						for _, b2 := range fn.Blocks {
-							for _, in2 := range b2.Instrs {
-								switch c := in2.(type) {
-								case *ssa.Defer:
-									if f := c.Call.StaticCallee(); f != nil && f.Name() == "Close" {
-										closes = true
-									}
-								case *ssa.Call:
-									if f := c.Call.StaticCallee(); f != nil && f.Name() == "Close" {
-										closes = true
-									}
-								case *ssa.MakeClosure:
-									if closureCloses(&Term{Fn: c.Fn.(*ssa.Function)}, "") {
-										closes = true
-									}
-								}
-							}
-						}
+						closes := reachesCall(fn, func(n string) bool { return strings.HasSuffix(n, ".Close") }, map[*ssa.Function]bool{})
 						d := ""
 						if !exits {
 							d = "no path leaves the goroutine after a failed read"
@@ -1255,4 +1263,17 @@ func sliceLenOf(v ssa.Value) (int64, bool) {
 		}
 	}
 	return 0, false
+}
+
+// closureCaptures: one of the closure's bindings (or what they point to) is the named value.
+func closureCaptures(clos *Term, what string) bool {
+	for _, b := range clos.Args {
+		if b == nil {
+			continue
+		}
+		if strings.Contains(b.String(), what) || strings.Contains(termDeep(b), what) {
+			return true
+		}
+	}
+	return false
 }
